@@ -374,6 +374,6 @@ func runStat(c StatCase, rec *h.Rec) error {
 	return nil
 }
 
-var propStat = h.NewProp("TestPropCollectiveKeyNoiseStatistics", h.Budget{Quick: 160, Thorough: 3000}, genStat, runStat)
+var propStat = h.NewProp("TestPropCollectiveKeyNoiseStatistics", h.Budget{Quick: 100, Thorough: 1500}, genStat, runStat)
 
 func TestPropCollectiveKeyNoiseStatistics(t *testing.T) { propStat.Check(t) }
